@@ -17,6 +17,10 @@ Correspondence (this file): the real `Stream.latest()` node runs on the virtual 
                     its `emitting` state, inside the very handle that performed the `resume`)
     c  connect     (late-connect cases only: attach the consumer to the latest node now; before
                     that the node has NO downstream and what it emits goes to nobody)
+    x  detach      (rewiring: `upstream.disconnect(latest)` — or `latest.destroy()` — while idle, while the
+                    consumer is busy, with an element in the slot; what the producer emits while the node
+                    is detached goes nowhere: it is NOT an arrival and carries no claim)
+    y  re-attach   (`upstream.connect(latest)`)
 executed from the loop's `after_handle` hook, so an arrival can be placed between any two
 handles — in particular between a `condition.notify` callback and the coroutine's resumption.
 The consumer is a sink whose `update` returns a Future the harness completes ('A' mode) or
@@ -74,6 +78,17 @@ class Exec:
         self.sink = None
         self.attached_at = None                 # number of arrivals when the consumer was attached
         self.emits = []                         # everything the node emitted (to the consumer or to nobody), for the model
+        self.detached = False                   # the latest node currently has no upstream (x ... y)
+        self.detach_via = case.get("detach_via", "disconnect")
+        self.rewire = bool(case.get("rewire"))  # exhaustive mode: offer x / y as choices
+        self.max_detach = case.get("max_detach", 1)
+        self.detaches = 0
+        self.detach_busy = 0                    # detached while the consumer was busy
+        self.detach_slot = 0                    # detached with a fresh element in the slot
+        self.done_while_detached = 0            # the consumer finished while the node was detached
+        self.lost_emits = 0                     # producer emits while detached (reach nobody)
+        self.arrivals_after_reattach = 0
+        self.reattached = False
         self.max_arrivals = case.get("max_arrivals")
         self.chooser = chooser          # exhaustive mode: called with the enabled token list
         self.executed = []              # tokens actually performed
@@ -176,7 +191,8 @@ class Exec:
         # ---- re-entrant arrival: the consumer feeds a new element back in before it returns
         re = False
         if self.chooser is not None:
-            if self.reentry and (self.max_arrivals is None or len(self.arrivals) < self.max_arrivals):
+            if self.reentry and not self.detached and (
+                    self.max_arrivals is None or len(self.arrivals) + self.lost_emits < self.max_arrivals):
                 re = self.chooser(["-", "r"]) == "r"
                 if re:
                     self.executed.append("r")     # lands before the 'h' of the handle in progress
@@ -280,8 +296,13 @@ class Exec:
     # ------------------------------------------------------------ driving
     def enabled(self):
         en = []
-        if self.max_arrivals is None or len(self.arrivals) < self.max_arrivals:
+        if self.max_arrivals is None or len(self.arrivals) + self.lost_emits < self.max_arrivals:
             en.append("a")
+        if self.rewire:
+            if self.detached:
+                en.append("y")
+            elif self.detaches < self.max_detach:
+                en.append("x")
         if any(not h._cancelled for h in self.loop._ready):
             en.append("h")
         if self.outstanding is not None:
@@ -329,6 +350,14 @@ class Exec:
                     if any(not h._cancelled for h in self.loop._ready):
                         return          # the loop now runs exactly one handle, then calls us again
                     continue
+                if tok == "x":
+                    if not self.detached:
+                        self.do_detach()
+                    continue
+                if tok == "y":
+                    if self.detached:
+                        self.do_reattach()
+                    continue
                 if tok == "c":
                     if self.sink is None:
                         self.attach()
@@ -339,7 +368,7 @@ class Exec:
                     self.executed.append("r")
                     continue
                 if tok == "a":
-                    if self.max_arrivals is not None and len(self.arrivals) >= self.max_arrivals:
+                    if self.max_arrivals is not None and len(self.arrivals) + self.lost_emits >= self.max_arrivals:
                         continue
                     self.do_arrive()
                 elif tok == "d":
@@ -366,14 +395,49 @@ class Exec:
     def do_rearrive(self):
         """Called from inside the consumer, i.e. inside latest.cb's `self._emit(x, ...)`: the slot has
         been taken and the delivery has started; now `update` runs re-entrantly (slot filled, notify queued)."""
+        if self.detached:
+            self.emit_nowhere()
+            return
         p, ref = self.new_element()
         self.reentrant_arrivals += 1
         self.busy_arrivals += 1
+        if self.reattached:
+            self.arrivals_after_reattach += 1
         self.events.append("rearrive")
         self.source.emit(p, metadata=[{"ref": ref}])
 
+    def emit_nowhere(self):
+        """The producer emits while the latest node is detached: the element reaches nobody."""
+        self.lost_emits += 1
+        self.source.emit(["lost", self.lost_emits], metadata=[{"ref": self.RefCounter()}])
+
+    def do_detach(self):
+        self.detaches += 1
+        if self.outstanding is not None:
+            self.detach_busy += 1
+        if self.node.next:
+            self.detach_slot += 1
+        if self.detach_via == "destroy":
+            self.node.destroy()
+        else:
+            self.source.disconnect(self.node)
+        self.detached = True
+        self.record("x", "")
+
+    def do_reattach(self):
+        self.source.connect(self.node)
+        self.detached = False
+        self.reattached = True
+        self.record("y", "")
+
     def do_arrive(self):
+        if self.detached:
+            self.emit_nowhere()
+            self.record("a", "")        # not an arrival: the node must not change at all
+            return
         p, ref = self.new_element()
+        if self.reattached:
+            self.arrivals_after_reattach += 1
         if self.outstanding is not None:
             self.busy_arrivals += 1
         elif not self.cond._waiters and self.steps:
@@ -388,6 +452,8 @@ class Exec:
                          "reference of arrival %d dropped to %d while it was still being delivered downstream"
                          % (idx, self.refs[idx - 1].count))
         self.outstanding = None
+        if self.detached:
+            self.done_while_detached += 1
         fut.set_result(None)
         self.record("d", "D")
 
@@ -449,7 +515,7 @@ def gen_case(rng):
     period, arrivals exactly one loop turn apart, long idle stretches and fully synchronous
     consumers are all frequent."""
     style = rng.choice(["uniform", "uniform", "turn-apart", "busy-burst", "eager-loop", "slow-loop", "sync",
-                        "feedback", "feedback", "late-connect", "late-connect"])
+                        "feedback", "feedback", "late-connect", "late-connect", "rewire", "rewire"])
     n = rng.choice([3, 6, 10, 16, 25, 40])
     toks = []
     if style == "turn-apart":
@@ -467,6 +533,18 @@ def gen_case(rng):
             toks += ["a"] + ["h"] * rng.randint(1, 4)            # get one element into delivery
             toks += [rng.choice("aah") for _ in range(rng.randint(1, 6))]   # burst while busy
             toks += ["d"] + ["h"] * rng.randint(0, 4)
+    elif style == "rewire":
+        # the latest node is detached from its upstream and re-attached: while idle, while the consumer is
+        # busy (and finishing while detached), with an element pending; producer emits while detached go nowhere
+        toks += ["h"] * rng.randint(0, 2)
+        for _ in range(rng.randint(1, 3)):
+            toks += ["a"] + ["h"] * rng.randint(0, 3)                       # usually: one element in delivery
+            toks += rng.choices("ah", weights=(1, 2), k=rng.randint(0, 3))   # maybe a pending one
+            toks.append("x")
+            toks += rng.choices("ahd", weights=(1, 4, 3), k=rng.randint(0, 6))   # consumer may finish while detached
+            if rng.random() < 0.8:
+                toks.append("y")
+                toks += rng.choices("ahd", weights=(3, 4, 2), k=rng.randint(0, 8))
     elif style == "late-connect":
         # some arrivals while latest() has no downstream at all, then the consumer is attached, then more input
         toks += rng.choices("ah", weights=(2, 3), k=rng.randint(1, 8))
@@ -491,12 +569,25 @@ def gen_case(rng):
         modes = rng.choice(["A", "A", "A", "AS", "SA", "AAS", "".join(rng.choice("AS") for _ in range(5))])
     case = {"tokens": "".join(toks), "modes": modes, "payload": rng.choice(["idx", "idx", "falsy", "str"]),
             "style": style}
+    if style == "rewire" or rng.random() < 0.15:
+        case["detach_via"] = rng.choice(["disconnect", "disconnect", "destroy"])
+        if style != "rewire":
+            # a detach / re-attach pair dropped anywhere into another style
+            toks = list(case["tokens"])
+            i = rng.randint(0, len(toks))
+            j = rng.randint(i, len(toks))
+            toks.insert(j, "y")
+            toks.insert(i, "x")
+            if rng.random() < 0.25:
+                toks.remove("y")         # stays detached to the end
+            case["tokens"] = "".join(toks)
     if style == "late-connect":
         case["late"] = True
     elif rng.random() < 0.12:
         # late attachment inside any other style ('c' somewhere, or only when draining starts)
         case["late"] = True
         if rng.random() < 0.7:
+            toks = list(case["tokens"])
             k = rng.randint(0, len(toks))
             case["tokens"] = "".join(toks[:k] + ["c"] + toks[k:])
     if rng.random() < 0.4:
@@ -553,6 +644,17 @@ CORPUS = [
     {"tokens": "hacahh", "modes": "A", "payload": "idx", "late": True, "style": "corpus:late-connect-element-still-in-slot"},
     {"tokens": "hahhh", "modes": "S", "payload": "idx", "late": True, "style": "corpus:connect-only-when-draining"},
     {"tokens": "hahhcahhh", "modes": "S", "payload": "idx", "payloads": "0N", "late": True, "style": "corpus:late-connect-none"},
+    # rewiring: the node is detached from its upstream (and re-attached)
+    #   busy, an element pending, detached, the consumer finishes while detached: the pending element must still go out
+    {"tokens": "hahhaxdhhh", "modes": "A", "payload": "idx", "style": "corpus:detach-busy-pending"},
+    #   busy, detached, consumer finishes while detached, re-attached, a later arrival must be delivered
+    {"tokens": "hahhxdhhhyahhh", "modes": "A", "payload": "idx", "style": "corpus:detach-busy-reattach"},
+    {"tokens": "hahhxdhhhyahhh", "modes": "A", "payload": "idx", "detach_via": "destroy", "style": "corpus:destroy-busy-reattach"},
+    #   detached while idle / with an element still in the slot / producer emits while detached reach nobody
+    {"tokens": "hahhdhhxaahhyahhdhh", "modes": "A", "payload": "idx", "style": "corpus:detach-idle-lost-emits"},
+    {"tokens": "haxhhhdyhh", "modes": "A", "payload": "idx", "style": "corpus:detach-element-in-slot"},
+    {"tokens": "hahhxydhhahh", "modes": "AS", "payload": "falsy", "style": "corpus:detach-reattach-back-to-back"},
+    {"tokens": "rhahhxdhhyrahhdhh", "modes": "A", "payload": "idx", "style": "corpus:detach-feedback"},
 ]
 
 
@@ -623,6 +725,20 @@ class Batch:
                 ctx.count("arrivals-before-and-after-late-attachment")
             if len(ex.emits) > len(ex.deliveries):
                 ctx.count("element-emitted-to-nobody-before-attachment")
+        if ex.detaches:
+            ctx.count("node-detached-from-upstream")
+            if ex.detach_busy:
+                ctx.count("detached-while-consumer-busy")
+            if ex.detach_slot:
+                ctx.count("detached-with-element-in-slot")
+            if ex.done_while_detached:
+                ctx.count("consumer-finished-while-detached")
+            if ex.lost_emits:
+                ctx.count("producer-emit-while-detached(no-arrival)")
+            if ex.arrivals_after_reattach:
+                ctx.count("arrival-after-re-attach")
+            if ex.detached:
+                ctx.count("ends-detached")
         if ex.payloads:
             codes = ex.payloads[:len(ex.arrivals)]
             if "N" in codes:
@@ -688,6 +804,11 @@ def run(ctx):
         "node, the oracle looks only at what the consumer received and claims 'newest delivered' only for elements that arrived "
         "after the consumer was attached (an element received at or after attachment is necessarily emitted after it, hence to the consumer)",
         "an emission to nobody is observed through a logging wrapper installed as the instance attribute latest._emit",
+        "rewiring (upstream.disconnect(latest) / latest.destroy() / upstream.connect(latest)) is NOT a model action: the node's "
+        "transition system is unchanged by it; what the producer emits while the node is detached does not reach the node, is "
+        "not an `arrive` and carries no claim (the harness checks that the node's observable state does not change on it); "
+        "everything that did reach the node — before, and after re-attachment — is subject to all statements, in particular "
+        "'newest delivered once the loop is idle and the consumer free' also while the node is (still) detached",
         "a re-entrant arrival (the consumer emits into the upstream of latest during the call that hands it an element) is "
         "the model action `arrive` taken in state `emitting`, inside the handle that performed `resume`; arrivals from other "
         "threads are excluded (update runs on the loop thread)",
@@ -700,18 +821,19 @@ def run(ctx):
     n_random = 10000 if ctx.thorough() else 300
     for _ in range(n_random):
         batch.add(execute(gen_case(ctx.rng)), "random")
-    exh = [("A", 4), ("AS", 4), ("SA", 3), ("S", 4)]
+    # (consumer modes, max arrivals, may the consumer re-enter at each delivery)
+    exh = [("A", 4, False), ("A", 3, True), ("AS", 4, True), ("SA", 3, True), ("S", 4, True)]
     if ctx.thorough():
-        exh = [("A", 5), ("AS", 5), ("SA", 5), ("S", 6), ("AAS", 4)]
+        exh = [("A", 5, True), ("AS", 5, True), ("SA", 5, True), ("S", 6, True), ("AAS", 4, True)]
     cap = 1000000 if ctx.thorough() else 60000     # > 10x the size of the largest tree of a conforming node
-    for modes, nmax in exh:
+    for modes, nmax, reentry in exh:
         broken = False
         for n in range(1, nmax + 1):
             k = 0
             for ex in enumerate_paths({"max_arrivals": n, "modes": modes, "payload": "idx", "style": "exhaustive",
-                                       "reentry": True}):
+                                       "reentry": reentry}):
                 batch.add(ex, "exhaustive")
-                ctx.count("exhaustive:%s:%d" % (modes, n))
+                ctx.count("exhaustive:%s%s:%d" % (modes, ":reentry" if reentry else "", n))
                 k += 1
                 if ex.problems:
                     # the property already fails on this interleaving: exhaustiveness has nothing to add
@@ -727,17 +849,24 @@ def run(ctx):
             if broken:
                 break
     # ... with None / falsy singleton payloads in every position, and with the consumer attached late
-    extra = [({"modes": "A", "payloads": pl, "reentry": True}, 3) for pl in ("N0E", "0NE", "0EN")]
+    extra = [({"modes": "A", "payloads": "N0", "reentry": True}, 2), ({"modes": "A", "payloads": "0N", "reentry": True}, 2),
+             ({"modes": "A", "payloads": "0EN", "reentry": True}, 3)]
     extra += [({"modes": "S", "payloads": pl, "reentry": True}, 4) for pl in ("NTB0", "TNB0", "TB0N")]
-    extra += [({"modes": "A", "late": True}, 3), ({"modes": "S", "late": True}, 3), ({"modes": "AS", "late": True}, 3)]
+    extra += [({"modes": "A", "late": True}, 3), ({"modes": "S", "late": True}, 3), ({"modes": "AS", "late": True}, 2)]
+    # ... with one detach / re-attach of the node placed everywhere (producer emits while detached count towards the bound)
+    extra += [({"modes": "A", "rewire": True, "reentry": True}, 2), ({"modes": "S", "rewire": True}, 3),
+              ({"modes": "AS", "rewire": True, "detach_via": "destroy"}, 2)]
     if ctx.thorough():
-        extra += [({"modes": "S", "late": True}, 4)]
+        extra += [({"modes": "S", "late": True}, 4), ({"modes": "AS", "late": True}, 3)]
+        extra += [({"modes": "AS", "rewire": True}, 3), ({"modes": "A", "rewire": True}, 3),
+                  ({"modes": "S", "rewire": True, "max_detach": 2}, 3)]
         extra += [({"modes": "A", "payloads": pl, "reentry": True}, 4) for pl in ("N0EF", "0NEF", "0ENF", "0EFN")]
         extra += [({"modes": "A", "late": True, "reentry": True}, 4), ({"modes": "SA", "late": True, "payloads": "0N"}, 4)]
     for base, nmax in extra:
         broken = False
-        tag = "exhaustive:%s%s%s" % (base["modes"], ":late" if base.get("late") else "",
-                                     ":" + base["payloads"] if base.get("payloads") else "")
+        tag = "exhaustive:%s%s%s%s" % (base["modes"], ":late" if base.get("late") else "",
+                                       ":rewire" if base.get("rewire") else "",
+                                       ":" + base["payloads"] if base.get("payloads") else "")
         for n in range(1, nmax + 1):
             k = 0
             for ex in enumerate_paths(dict(base, max_arrivals=n, payload="idx", style="exhaustive")):
@@ -761,10 +890,13 @@ def run(ctx):
         "in 8 styles (uniform, arrivals one loop turn apart, bursts during a busy period, eager/slow loop, synchronous consumer, "
         "feedback cycles), consumer mode per delivery async/sync, 3 payload kinds; + EXHAUSTIVE enumeration of every maximal "
         "interleaving with <= 4 arrivals (quick; <= 5 thorough) for async, sync and alternating consumers, where at every delivery "
-        "the consumer may or may not re-enter; further exhaustive trees with None / falsy singleton payloads in every position and with "
+        "the consumer may or may not re-enter (quick: async-only consumer with re-entry up to 3 arrivals, without up to 4); further exhaustive trees with None / falsy singleton payloads in every position and with "
         "the consumer attached late (`c` = connect, interleaved everywhere; before it the node emits to nobody).  Payloads are "
         "recognised by identity only (None, 0, '', False, (), b'', [], {} are all used).  With a late consumer the 'newest delivered' "
-        "claim is made only when something arrived after the attachment.  Every run is drained at the end and the oracle "
+        "claim is made only when something arrived after the attachment.  "
+        "Rewiring: schedule letters x (detach latest from its upstream: disconnect or destroy) and y (re-attach) in a dedicated style, "
+        "dropped into the other styles, and in exhaustive trees with one detach/re-attach placed everywhere (idle, consumer busy, "
+        "element in the slot, consumer finishing while detached); producer emits while detached are not arrivals.  Every run is drained at the end and the oracle "
         "is evaluated at every point where the loop is idle.  Non-trivial: >= 2 arrivals and at least one arrival while the "
         "consumer is busy or between a notify callback and the coroutine's resumption.  Distinct = distinct schedule JSON.")
 
